@@ -26,9 +26,29 @@ def analyse(rep):
     naccess = 0
     for f in eng.functions:
         parent_of = None
+        # the other correct idiom: a compare-exchange RETRY loop (the CAS is the condition of a loop, so a failed exchange is retried and
+        # only the value that was actually replaced is handed out).  A CAS outside a loop condition is not: its failure is not retried.
+        cas_nodes = [m for m in f.walk() if (atomics.atomic_op(m) or {}).get('kind') == 'cas' and any(x.get('member') == 'counter' for x in walk(m))]
+
+        def in_loop_cond(m):
+            for a in f.ancestors(m):
+                if a['k'] in ('WhileStmt', 'DoStmt', 'ForStmt'):
+                    roles = dict(zip(a.get('roles', []), a['c'])) if a.get('roles') else {}
+                    cond = roles.get('cond')
+                    if cond is None and a['k'] == 'WhileStmt' and kids(a):
+                        cond = kids(a)[0]
+                    if cond is None and a['k'] == 'DoStmt' and kids(a):
+                        cond = kids(a)[-1]
+                    if cond is not None and any(x is m for x in walk(cond)):
+                        return True
+            return False
+        retry_idiom = bool(cas_nodes) and all(in_loop_cond(m) for m in cas_nodes)
         for n in f.walk():
             if n['k'] == 'MemberExpr' and n.get('member') == 'counter' and n.get('mcls') == 'Engine':
                 naccess += 1
+                if retry_idiom:
+                    rep.ob('I2-counter-rmw-only', 'Engine::counter@%s' % f.name, True, f.loc(n), 'compare-exchange retry loop')
+                    continue
                 # the access must be the object of an atomic RMW increment whose value is used as the result
                 p = f.parent(n)
                 while p is not None and p['k'] in facts.TRANSPARENT + ('MemberExpr',):
